@@ -201,6 +201,11 @@ def classify_crash(rc, stderr, platform):
     if m:
         return "violation", "rust-res:%s:%s" % (m.group(1), ctx.get("op", d)), "resource table trap: %s %s during %s" % (m.group(1), m.group(2)[:300], where)
     m = re.search(r"error: Undefined Behavior: ([^\n]*)", stderr)
+    if m and "uninitialized" in m.group(1) and "0: rsguest_host::conv::from_ptr64" in stderr:
+        # Harness limitation, not a guest defect: on a 32-bit target the generated code fills only the
+        # pointer half of a pointer-or-i64 flat slot (the other half is dead, as on wasm32); the glue
+        # has to read the whole slot before it knows which case is active.
+        return "inconclusive", None, "Miri: pointer-or-i64 slot with an uninitialised upper half read by the host glue (%s)" % where
     if m:
         msg = m.group(1)
         low = msg.lower()
